@@ -32,7 +32,7 @@ RULE = (
     "{first generation, stale}. distinct = by (scenario, size, k, mode) / history; non-trivial = the fault "
     "actually fired (child died or raised) / the history contained both a due and a not-due construction."
 )
-RULE += ' added since: histories run through four construction routes: Template(module_directory), Template(module_filename), TemplateLookup(module_directory), TemplateLookup(modulename_callable) without a module directory.'
+RULE += ' added since: histories run through four construction routes: Template(module_directory), Template(module_filename), TemplateLookup(module_directory), TemplateLookup(modulename_callable) without a module directory. a module file as an old code generator wrote it (magic number 5, module-level cache.Cache with the signature of that time).'
 ASSUMPTIONS = [
     "'die' is process death with the kernel intact (os._exit); power-loss ordering cannot be observed from user space",
     "the injector counts exists/stat/makedirs/mkstemp/write/close/move/rename calls that concern the module directory",
